@@ -126,6 +126,10 @@ DISCRETE = ("DistBernoulli", "DistBinomial", "DistDiscreteUniform", "DistGeometr
 CDF_CLASSES = ("DistNormal", "DistLogNormal", "DistNormalTrunc")
 # entry methods: their generated definitions take ALL record fields of the class
 API = ("draw", "probability_density", "probability", "cumulative_probability", "inverse_cumulative_probability")
+# methods that become definitions of their own (coq/Dist/GenAgree.v has a theorem about each); every OTHER method or
+# module-level function that is called is a private helper and is translated at the call site (inlined)
+KEPT = set(API) | {"_next_open_float", "_next_gaussian", "cumulative_probability_not_truncated",
+                   "inverse_cumulative_probability_not_truncated"}
 # groups: "draw" = constructor + draw (C14), "density" = density functions (C15)
 
 
@@ -307,6 +311,7 @@ class Translator:
         self.utils = set()
         self.has_stream_iface = False
         self.has_logger = False
+        self.funcs = {}         # module-level functions (private helpers: translated at the call site)
         for st in self.tree.body:
             names = []
             if isinstance(st, ast.Import):
@@ -341,6 +346,12 @@ class Translator:
                     if st.name in self.classes:
                         self.fail(st, f"class {st.name} defined twice")
                     self.classes[st.name] = st
+                elif isinstance(st, ast.FunctionDef):
+                    if st.name in self.funcs:
+                        self.fail(st, f"function {st.name} defined twice")
+                    self.funcs[st.name] = st
+                else:
+                    self.fail(st, "async function")
             elif isinstance(st, (ast.Assign, ast.AnnAssign, ast.AugAssign)):
                 tg = st.targets if isinstance(st, ast.Assign) else [st.target]
                 for t in tg:
@@ -840,9 +851,10 @@ class Translator:
             return self.emit_raise(s, self.exc_name(s), env)
         if isinstance(s, ast.Return):
             if self.ctx.retk:
-                if s.value is not None:
-                    self.fail(s, "return with a value in a method that is called as a statement")
-                return self.ctx.retk[-1](env)
+                rk = self.ctx.retk[-1]
+                if s.value is None:
+                    return rk(V("None"), env)
+                return self.expr(s.value, env, rk)
             if self.ctx.kind == "ctor":
                 self.fail(s, "return in a constructor")
             if s.value is None:
@@ -874,9 +886,13 @@ class Translator:
         if isinstance(s, ast.For):
             return self.loop(s, env, k)
         if isinstance(s, ast.Break):
-            if not self.loopstack or self.loopstack[-1] is None:
-                self.fail(s, "break outside a translated while loop")
-            return self.loopstack[-1](env)
+            if not self.loopstack or self.loopstack[-1][0] is None:
+                self.fail(s, "break in a loop that counts its iterations")
+            return self.loopstack[-1][0](env)
+        if isinstance(s, ast.Continue):
+            if not self.loopstack or self.loopstack[-1][1] is None:
+                self.fail(s, "continue outside a translated loop")
+            return self.loopstack[-1][1](env)
         if isinstance(s, ast.Expr):
             if isinstance(s.value, ast.Constant) and isinstance(s.value.value, str):
                 return k(env)
@@ -1072,14 +1088,15 @@ class Translator:
             return k(env)
         target = None
         after = None
-        if isinstance(f, ast.Attribute) and isinstance(f.value, ast.Name) and f.value.id == "self":
-            d, fn = self.resolve(self.ctx.cls, f.attr)
-            target = (d, fn, f.attr)
-        elif isinstance(f, ast.Attribute) and isinstance(f.value, ast.Call) and isinstance(f.value.func, ast.Name) \
-                and f.value.func.id == "super" and not f.value.args and not f.value.keywords:
-            after = self.ctx.defstack[-1]
-            d, fn = self.resolve(self.ctx.cls, f.attr, after=after)
-            target = (d, fn, f.attr)
+        if self.ctx.defstack[-1] is not None:
+            if isinstance(f, ast.Attribute) and isinstance(f.value, ast.Name) and f.value.id == "self" and "self" not in env.locals:
+                d, fn = self.resolve(self.ctx.cls, f.attr)
+                target = (d, fn, f.attr)
+            elif isinstance(f, ast.Attribute) and isinstance(f.value, ast.Call) and isinstance(f.value.func, ast.Name) \
+                    and f.value.func.id == "super" and not f.value.args and not f.value.keywords:
+                after = self.ctx.defstack[-1]
+                d, fn = self.resolve(self.ctx.cls, f.attr, after=after)
+                target = (d, fn, f.attr)
         if target is not None and target[2] in ("__init__", "_set_stream"):
             d, fn, nm = target
             if self.ctx.kind != "ctor":
@@ -1088,59 +1105,79 @@ class Translator:
                 if nm == "__init__" and d is None:
                     return self.exprs(c.args, env, lambda vs, e: k(e))      # object.__init__
                 self.fail(c, f"{nm} cannot be resolved")
-            return self.exprs(c.args, env, lambda vs, e: self.inline(c, d, fn, vs, e, k, after))
+            return self.exprs(c.args, env, lambda vs, e: self.inline(c, d, fn, vs, e, lambda v, e2: k(e2), after))
         # any other call: evaluated for its effect, value dropped
         return self.expr(c, env, lambda v, e: k(e))
 
     def inline(self, node, defcls, fn, args, env, k, after=None):
+        """translate the body of a helper at the call site: parameters bound to the (already evaluated) arguments,
+        `return e` hands e to the continuation k(value, env) of the call, falling off the end hands None.
+        defcls None: a module-level function (no self)."""
         a = fn.args
-        if a.vararg or a.kwarg or a.kwonlyargs or a.posonlyargs or a.defaults and len(args) != len(a.args) - 1:
-            self.fail(fn, f"{defcls}.{fn.name}: parameter list that is not plain positional")
-        if len(args) != len(a.args) - 1:
-            self.fail(node, f"{fn.name}() called with {len(args)} arguments, it has {len(a.args) - 1} parameters")
-        if fn.decorator_list:
-            self.fail(fn, f"decorated method {defcls}.{fn.name}")
+        where = f"{defcls}.{fn.name}" if defcls else fn.name
+        if a.vararg or a.kwarg or a.kwonlyargs or a.posonlyargs:
+            self.fail(fn, f"{where}: *args / **kwargs / keyword-only / positional-only parameters")
+        static = any(isinstance(d, ast.Name) and d.id == "staticmethod" for d in fn.decorator_list)
+        if [d for d in fn.decorator_list if not (isinstance(d, ast.Name) and d.id == "staticmethod")] or (static and not defcls):
+            self.fail(fn, f"decorated function {where}")
+        formals = list(a.args)
+        if defcls and not static:
+            if not formals or formals[0].arg != "self":
+                self.fail(fn, f"{where}: first parameter is not `self`")
+            formals = formals[1:]
+        if len(args) > len(formals):
+            self.fail(node, f"{fn.name}() called with {len(args)} arguments, it has {len(formals)} parameters")
+        vals = list(args)
+        for i in range(len(args), len(formals)):
+            di = i - (len(formals) - len(a.defaults))
+            dflt = a.defaults[di] if di >= 0 else None
+            if not (isinstance(dflt, ast.Constant) and type(dflt.value) in (int, float, bool, str, type(None))) :
+                self.fail(node, f"{fn.name}() called without a value for `{formals[i].arg}` (only literal defaults are modelled)")
+            ty = {int: "Z", float: "F", bool: "B", str: "Str", type(None): "None"}[type(dflt.value)]
+            vals.append(V(ty, const=dflt.value) if ty in ("Z", "F", "B") else V(ty))
         if (defcls, fn.name) in self.ctx.inlining:
-            self.fail(node, f"recursion through {defcls}.{fn.name}")
+            self.fail(node, f"recursion through {where}")
+        if len(self.ctx.inlining) > 12:
+            self.fail(node, "helper calls nested too deeply")
         for n in ast.walk(fn):
             if isinstance(n, (ast.FunctionDef, ast.AsyncFunctionDef, ast.Lambda, ast.ClassDef)) and n is not fn:
                 self.fail(n, "nested function / class / lambda")
             if isinstance(n, (ast.Yield, ast.YieldFrom, ast.Await, ast.Global, ast.Nonlocal, ast.Try, ast.With, ast.Delete,
-                              ast.NamedExpr, ast.ListComp, ast.SetComp, ast.DictComp, ast.GeneratorExp, ast.Starred,
-                              ast.While, ast.For)):
-                self.fail(n, f"{type(n).__name__} in a method that is part of the constructor")
+                              ast.NamedExpr, ast.ListComp, ast.SetComp, ast.DictComp, ast.GeneratorExp, ast.Starred)):
+                self.fail(n, f"{type(n).__name__} in the helper {where}")
         e2 = env.clone()
-        e2.locals = {p.arg: v for p, v in zip(a.args[1:], args)}
+        e2.locals = {p.arg: v for p, v in zip(formals, vals)}
         outer_locals = env.locals
-        self.ctx.calls.append((fn.name, after, defcls))
+        outer_loops = self.loopstack
+        if defcls:
+            self.ctx.calls.append((fn.name, after, defcls))
+        frame = (defcls if not static else None, None, (defcls, fn.name))
 
-        def back(e3):
+        def leave(v, e3):
+            # the continuation of the call runs in the caller's context
             e4 = e3.clone()
             e4.locals = outer_locals
-            return k(e4)
-
-        def run():
-            self.ctx.defstack.append(defcls)
-            self.ctx.retk.append(lambda e3: leave(lambda: back(e3)))
-            self.ctx.inlining.append((defcls, fn.name))
-            try:
-                return self.block(self.body_of(fn), e2, lambda e3: leave(lambda: back(e3)))
-            finally:
-                self.ctx.defstack.pop()
-                self.ctx.retk.pop()
-                self.ctx.inlining.pop()
-
-        def leave(thunk):
-            # the continuation runs in the caller's context
             ds, rk, il = self.ctx.defstack.pop(), self.ctx.retk.pop(), self.ctx.inlining.pop()
+            inner_loops, self.loopstack = self.loopstack, outer_loops
             try:
-                return thunk()
+                return k(v, e4)
             finally:
                 self.ctx.defstack.append(ds)
                 self.ctx.retk.append(rk)
                 self.ctx.inlining.append(il)
+                self.loopstack = inner_loops
 
-        return run()
+        self.ctx.defstack.append(frame[0])
+        self.ctx.retk.append(leave)
+        self.ctx.inlining.append(frame[2])
+        self.loopstack = []
+        try:
+            return self.block(self.body_of(fn), e2, lambda e3: leave(V("None"), e3))
+        finally:
+            self.ctx.defstack.pop()
+            self.ctx.retk.pop()
+            self.ctx.inlining.pop()
+            self.loopstack = outer_loops
 
     def exprs(self, es, env, k, acc=()):
         if not es:
@@ -1170,7 +1207,27 @@ class Translator:
                 return k(V("F", const=c), env)
             if c is None:
                 return k(V("None"), env)
+            if isinstance(c, str):
+                return k(V("Str"), env)           # only ever handed on to a helper that formats a message with it
             self.fail(e, f"literal {c!r}")
+        if isinstance(e, ast.JoinedStr):
+            for n in ast.walk(e):
+                if not isinstance(n, (ast.JoinedStr, ast.FormattedValue, ast.Constant, ast.Name, ast.Attribute, ast.Load)):
+                    self.fail(e, "formatted string with an expression that is not a name / attribute")
+            return k(V("Str"), env)
+        if isinstance(e, ast.IfExp):
+            # a if c else b: the test first, then only the chosen operand
+            try:
+                c, ft, ff = self.pure_cond(e.test, env)
+                if c.const is not None:
+                    return self.expr(e.body if c.const else e.orelse, env.plus(ft if c.const else ff), k)
+                a = self.pure_expr(e.body, env.plus(ft))
+                b = self.pure_expr(e.orelse, env.plus(ff))
+                if a.ty == b.ty and a.ty in ("F", "Z", "B"):
+                    return k(V(a.ty, f"(if {c.tx} then {self.text(a)} else {self.text(b)})"), env)
+            except Impure:
+                pass
+            return self.cond(e.test, env, lambda e1: self.expr(e.body, e1, k), lambda e1: self.expr(e.orelse, e1, k))
         if isinstance(e, ast.Name):
             if e.id in env.locals:
                 return k(env.locals[e.id], env)
@@ -1205,8 +1262,12 @@ class Translator:
             return self.call(e, env, k)
         self.fail(e, f"expression {type(e).__name__}")
 
+    def is_self(self, n, env):
+        """the name `self` of the method being read (not inside a module-level helper, not shadowed)"""
+        return isinstance(n, ast.Name) and n.id == "self" and "self" not in env.locals and self.ctx.defstack[-1] is not None
+
     def attribute(self, e, env, k):
-        if isinstance(e.value, ast.Name) and e.value.id == "self" and "self" not in env.locals:
+        if self.is_self(e.value, env):
             attr = e.attr
             cname = self.ctx.cls
             if attr in env.mut:
@@ -1451,6 +1512,9 @@ class Translator:
                     e, "res", "beta_fn N " + " ".join(self.ftext(self.numeric(e, v, e1)) for v in vs), "F", e1, k, "bt"))
             if f.id == "DistGamma" and len(e.args) == 3:
                 return self.exprs(e.args, env, lambda vs, e1: self.new_gamma(e, vs, e1, k))
+            if f.id in self.funcs:
+                # a module-level private helper: its body is translated here
+                return self.exprs(e.args, env, lambda vs, e1: self.inline(e, None, self.funcs[f.id], vs, e1, k))
             self.fail(e, f"call of `{f.id}` with {len(e.args)} arguments")
         if isinstance(f, ast.Attribute) and isinstance(f.value, ast.Name) and f.value.id == "math" and "math" not in env.locals:
             if not self.has_math:
@@ -1486,8 +1550,7 @@ class Translator:
                     return k(V("Z", f"(zcomb {self.text(vs[0])} {self.text(vs[1])})", big=True), e1)
                 return self.exprs(e.args, env, cb)
             self.fail(e, f"math.{f.attr}() with {len(e.args)} arguments")
-        if isinstance(f, ast.Attribute) and isinstance(f.value, ast.Attribute) and isinstance(f.value.value, ast.Name) \
-                and f.value.value.id == "self" and "self" not in env.locals:
+        if isinstance(f, ast.Attribute) and isinstance(f.value, ast.Attribute) and self.is_self(f.value.value, env):
             inner = f.value.attr
             if inner == "_stream":
                 if self.ctx.kind == "ctor":
@@ -1523,10 +1586,10 @@ class Translator:
             self.fail(e, f"call `{ast.unparse(e)[:60]}`")
         target = None
         after = None
-        if isinstance(f, ast.Attribute) and isinstance(f.value, ast.Name) and f.value.id == "self" and "self" not in env.locals:
+        if isinstance(f, ast.Attribute) and self.is_self(f.value, env):
             target = self.resolve(self.ctx.cls, f.attr)
         elif isinstance(f, ast.Attribute) and isinstance(f.value, ast.Call) and isinstance(f.value.func, ast.Name) \
-                and f.value.func.id == "super" and not f.value.args and not f.value.keywords:
+                and f.value.func.id == "super" and not f.value.args and not f.value.keywords and self.ctx.defstack[-1] is not None:
             after = self.ctx.defstack[-1]
             target = self.resolve(self.ctx.cls, f.attr, after=after)
         if target is not None:
@@ -1535,7 +1598,10 @@ class Translator:
                 self.fail(e, f"{f.attr}() cannot be resolved to a method")
             if f.attr in ("__init__", "_set_stream"):
                 self.fail(e, f"value of {f.attr}() used")
-            return self.exprs(e.args, env, lambda vs, e1: self.call_method(e, d, f.attr, vs, e1, k, after))
+            if f.attr in KEPT:
+                return self.exprs(e.args, env, lambda vs, e1: self.call_method(e, d, f.attr, vs, e1, k, after))
+            # a private helper method: its body is translated here
+            return self.exprs(e.args, env, lambda vs, e1: self.inline(e, d, fn, vs, e1, k, after))
         self.fail(e, f"call `{ast.unparse(e)[:60]}`")
 
     def concrete_push(self, c):
@@ -1659,8 +1725,6 @@ class Translator:
         if s.orelse:
             self.fail(s, "loop with an else clause")
         for n in ast.walk(s):
-            if isinstance(n, ast.Continue):
-                self.fail(n, "continue")
             if n is not s and isinstance(n, (ast.While, ast.For)):
                 self.fail(n, "nested loop")
         body = list(s.body)
@@ -1687,7 +1751,12 @@ class Translator:
             if nv.ty != "Z":
                 self.fail(s, "range() of a float")
             kind = "count"
-            init_fuel = f"(Z.to_nat {self.text(nv)})"
+            if nv.const is not None:
+                if not 0 <= nv.const <= 5000:
+                    self.fail(s, f"range({nv.const}): iteration count outside 0..5000")
+                init_fuel = f"{nv.const}%nat"
+            else:
+                init_fuel = f"(Z.to_nat {self.text(nv)})"
             env.locals.pop(s.target.id, None)
         else:
             if not self.consumes(body):
@@ -1741,24 +1810,45 @@ class Translator:
             return " ".join([name, which] + out)
 
         def k_after(e_x):
-            return k(e_x)
+            # the statements after the loop are outside it
+            saved, self.loopstack = self.loopstack, self.loopstack[:-1] if in_loop[0] else self.loopstack
+            was, in_loop[0] = in_loop[0], False
+            try:
+                return k(e_x)
+            finally:
+                self.loopstack, in_loop[0] = saved, was
 
         def k_again(e_x):
             return argtext(e_x, fuel1)
 
-        self.loopstack.append(k_after if kind != "count" else None)
+        def k_test(e_x):
+            return self.cond(s.test, e_x, k_again, k_after)
+
+        in_loop = [False]
+        if kind == "count":
+            zero_case = k_after(e_in)
+        else:
+            zero_case = self.emit_unmodelled(e_in)
+        # (continuation of `break`, continuation of `continue`)
+        if counter is not None:
+            self.loopstack.append((None, None))
+        elif kind == "count":
+            self.loopstack.append((None, k_again))
+        elif kind == "while":
+            self.loopstack.append((k_after, k_again))
+        else:
+            self.loopstack.append((k_after, k_test))
+        in_loop[0] = True
         try:
             if kind == "count":
-                zero_case = k_after(e_in)
                 step = self.block(body, e_in, k_again)
             elif kind == "while":
-                zero_case = self.emit_unmodelled(e_in)
                 step = self.cond(s.test, e_in, lambda e1: self.block(body, e1, k_again), k_after)
             else:
-                zero_case = self.emit_unmodelled(e_in)
-                step = self.block(body, e_in, lambda e1: self.cond(s.test, e1, k_again, k_after))
+                step = self.block(body, e_in, k_test)
         finally:
             self.loopstack.pop()
+            in_loop[0] = False
         ptxt = "".join(f" ({n} : {t})" for n, t in params)
         src = f"(* loop of {ctx.defcls}.{ctx.mname}  -- distributions.py lines {s.lineno}-{s.end_lineno}"
         src += {"count": "; recursion on the number of iterations left", "while": "; fuel tied to the recorded stream output",
